@@ -223,8 +223,12 @@ func (m *MemFS) Snapshot() *MemFS {
 	m.mu.Lock()
 	defer m.mu.Unlock()
 	c := NewMemFS()
+	copies := map[*node]*node{} // hard links stay links in the copy
 	for p, n := range m.files {
-		c.files[p] = &node{data: append([]byte(nil), n.data...)}
+		if copies[n] == nil {
+			copies[n] = &node{data: append([]byte(nil), n.data...)}
+		}
+		c.files[p] = copies[n]
 	}
 	for d := range m.dirs {
 		c.dirs[d] = true
@@ -264,7 +268,11 @@ func (m *MemFS) ApplyOp(op Op, tornBytes int) {
 	case "mkdir":
 		m.dirs[op.Path] = true
 	case "create":
-		m.files[op.Path] = &node{}
+		if n := m.files[op.Path]; n != nil {
+			n.data = nil // truncation of an existing file (seen through every hard link)
+		} else {
+			m.files[op.Path] = &node{}
+		}
 	case "write":
 		n := m.files[op.Path]
 		if n == nil {
@@ -280,6 +288,10 @@ func (m *MemFS) ApplyOp(op Op, tornBytes int) {
 	case "rename":
 		if n := m.files[op.Path]; n != nil {
 			delete(m.files, op.Path)
+			m.files[op.To] = n
+		}
+	case "link":
+		if n := m.files[op.Path]; n != nil && m.files[op.To] == nil {
 			m.files[op.To] = n
 		}
 	}
@@ -429,7 +441,7 @@ func (f *File) Stat() (FileInfo, error) {
 	if f.real != nil {
 		return f.real.Stat()
 	}
-	return memInfo{name: filepath.Base(f.path), size: int64(len(f.n.data))}, nil
+	return memInfo{name: filepath.Base(f.path), size: int64(len(f.n.data)), n: f.n}, nil
 }
 
 func (f *File) Seek(off int64, whence int) (int64, error) {
@@ -451,6 +463,7 @@ type memInfo struct {
 	name string
 	size int64
 	dir  bool
+	n    *node // identity of the file (hard links share it); nil for directories
 }
 
 func (i memInfo) Name() string { return i.name }
@@ -658,7 +671,7 @@ func Stat(name string) (FileInfo, error) {
 	m.mu.Lock()
 	defer m.mu.Unlock()
 	if n, ok := m.files[name]; ok {
-		return memInfo{name: filepath.Base(name), size: int64(len(n.data))}, nil
+		return memInfo{name: filepath.Base(name), size: int64(len(n.data)), n: n}, nil
 	}
 	if m.dirs[name] {
 		return memInfo{name: filepath.Base(name), dir: true}, nil
@@ -685,7 +698,7 @@ func ReadDir(name string) ([]DirEntry, error) {
 	var out []DirEntry
 	for p, n := range m.files {
 		if filepath.Dir(p) == name {
-			out = append(out, memInfo{name: filepath.Base(p), size: int64(len(n.data))})
+			out = append(out, memInfo{name: filepath.Base(p), size: int64(len(n.data)), n: n})
 		}
 	}
 	for d := range m.dirs {
@@ -767,7 +780,13 @@ func UserHomeDir() (string, error)            { return ros.UserHomeDir() }
 func UserCacheDir() (string, error)           { return ros.UserCacheDir() }
 func Executable() (string, error)             { return ros.Executable() }
 func Getpagesize() int                        { return ros.Getpagesize() }
-func SameFile(a, b FileInfo) bool             { return ros.SameFile(a, b) }
+func SameFile(a, b FileInfo) bool {
+	if x, ok := a.(memInfo); ok {
+		y, ok := b.(memInfo)
+		return ok && x.n != nil && x.n == y.n
+	}
+	return ros.SameFile(a, b)
+}
 func NewSyscallError(s string, e error) error { return ros.NewSyscallError(s, e) }
 
 func Chmod(name string, mode FileMode) error {
@@ -847,11 +866,32 @@ func Symlink(o, n string) error {
 	return errors.New("vos: Symlink unsupported in memory mode")
 }
 
+// Link makes a hard link: both names refer to the same node from now on (SameFile reports
+// it), removing one name leaves the other, link(2) refuses an existing new name with EEXIST.
 func Link(o, n string) error {
-	if FS == nil {
+	m := FS
+	if m == nil {
 		return ros.Link(o, n)
 	}
-	return errors.New("vos: Link unsupported in memory mode")
+	o, n = Canon(o), Canon(n)
+	if err := m.enter("link", o); err != nil {
+		return &ros.LinkError{Op: "link", Old: o, New: n, Err: syscall.EIO}
+	}
+	m.mu.Lock()
+	defer m.mu.Unlock()
+	src, ok := m.files[o]
+	if !ok {
+		return &ros.LinkError{Op: "link", Old: o, New: n, Err: syscall.ENOENT}
+	}
+	if _, exists := m.files[n]; exists || m.dirs[n] {
+		return &ros.LinkError{Op: "link", Old: o, New: n, Err: syscall.EEXIST}
+	}
+	if !m.dirs[filepath.Dir(n)] {
+		return &ros.LinkError{Op: "link", Old: o, New: n, Err: syscall.ENOENT}
+	}
+	m.files[n] = src
+	m.Log = append(m.Log, Op{Kind: "link", Path: o, To: n})
+	return nil
 }
 
 func Readlink(n string) (string, error) {
